@@ -5,6 +5,26 @@ ROOT = os.path.dirname(os.path.abspath(__file__))
 obl = json.load(open(os.path.join(ROOT, "lean", "obligations.json")))
 
 CHECKS = {
+ "C02": dict(
+   technique="Lean 4 theorem execQuery = truth-table count for every assumption list (dispatch, core shortcuts, marking strategy with divide trick, default strategy all modelled) + correspondence on exported arrays",
+   text="count_under_assumptions_exact: for every well-formed node array with unique literal leaves and every list of in-range literals (any length/order/repetition/contradiction) the model of execute_query equals the number of satisfying assignments containing the list; strategy_independent is unconditional. Tie: the Lean driver runs the same execQuery on the node arrays exported from the real loader for all 3^n partial assignments (n<=5 quick, n<=7 thorough) and boundary-length lists and is diffed with the real execute_query; the real code is also compared with the truth table of the input text and, on the corpus, with the split/permutation/padding laws; library and stream interfaces.",
+   note="InRange hypothesis: literals with |f|>n or 0 are outside the theorem (the code ignores them; not generated). Modelled, not verified: BigInt as Nat; Node.parents / md bookkeeping of the marking algorithm is abstracted to 'ancestors of touched leaves' (tied by correspondence); CLI and count-queries file interfaces are exercised by C15/C13 checks, not here.",
+   ref="DESIGN.md §8 C02"),
+ "C03": dict(
+   technique="Lean 4 theorem satQuery = (truth-table count > 0); unconditional mark invariant; correspondence incl. kept propagation state",
+   text="sat_agrees_with_models / sat_iff_count_positive for every well-formed array and in-range list; mark_iff_no_compatible_model is the unconditional invariant of the propagation state (marked or count 0 iff no compatible model), which makes the state a function of the set of propagated literals. Tie: sat, sat_immutable, stream sat and chunked sat_propagate with a kept vector are diffed with the model (answers and the state vector node by node) and with the truth table.",
+   note="Modelled, not verified: the worklist order of propagate_mark (parents recursion, early exits) is modelled by its least fixpoint; equality of the two is tied by comparing the kept mark vector with the model's fixpoint on every sampled incremental history, not proved.",
+   ref="DESIGN.md §8 C03"),
+ "C04": dict(
+   technique="Lean 4 theorem: reverse-mode partial-derivative pass gives the single-literal counts (loop invariant over the downward pass) + correspondence",
+   text="row_is_single_literal_count: for every well-formed array with unique leaves, row f of the model of card_of_each_feature equals the truth-table count of [f]; one_row_per_feature; row_eq_execQuery. Tie: table of the real code diffed with the model's cardPD on exported arrays and compared with the truth table; ratio checked against card/total within 1e-12; CSV writer rows on the corpus.",
+   note="Modelled, not verified: f64 conversion/formatting of the ratio (BigRational::to_f64, {:.10e}) is trusted and checked numerically only.",
+   ref="DESIGN.md §8 C04"),
+ "C05": dict(
+   technique="Lean 4 theorems: core = literals in all models (semantic core via partial derivatives), core with assumptions via exact counts + correspondence",
+   text="core_exact (l reported iff every model contains l), core_with_assumptions_exact, core_candidate_exact for every well-formed array. Tie: get_core, core_dead/core/dead_with_assumptions and stream core (plain and per-candidate) diffed with the model on exported arrays and compared with the truth table for all assumption lists of length <=2 (n<=5) and sampled length 3; corpus: core literal iff count of complement is 0. The check found and the repo now carries the repair of calculate_core (known_findings: fixed c47cc16).",
+   note="Requires count > 0 (satisfiable model) for core_exact. HashSet order of the library result is canonicalised by sorting.",
+   ref="DESIGN.md §8 C05"),
  "C01": dict(
    technique="Lean 4 theorem (count = number of satisfying assignments for every well-formed node array) + per-input validated loader correspondence",
    text="Theorems count_is_model_count / same_function_same_count hold for every well-formed node array of any size (induction over the array, kernel-checked). The loader is tied per input: the Lean driver evaluates the decidable WF predicate and the truth table on the node array the real loader exported and compares with the truth table of the input text; the real code is compared with an independent oracle.",
